@@ -379,6 +379,48 @@ def run(tier, seed):
                                                                               and M.match(("or", ("call", "lha_decode_uint16"), ("call", "lha_decode_uint32"), ("bind", "p")), f[1], {}) is not None
                                                                               and de.defn(M.strip(f[1])) is not None and de.defn(M.strip(f[1])).op == "phi" and False])
                 rep.check(rid, bad is None, "success return is not taken from the reject edge", de.file, None, function=de.cname, obj="reject")
+        # R4e': the accepted extended header AND the size field that follows it lie inside the bytes held
+        rid = rep.rule("R4e2", "chain walker: at each decode call offset + ext_len + field_size <= raw_data_len (symbolic linear bounds: guard fact + conservation of available_length + offset)", 3)
+        if de:
+            from ..ir import Module as IRModule
+            from ..range import Unit, Analysis, I
+            from ..sym import Sym
+            from ..rangedrv import generic_contracts
+            hmod = ctx.inlined("header")
+            hf = hmod.fn("lha_file_header_read")
+            if rep.need(rid, hf, "inlined lha_file_header_read") is not None:
+                Mh = Matcher(hf)
+                unit = Unit(hmod)
+                # A-size63: byte counts of allocated objects are below 2^62 (malloc cannot succeed otherwise)
+                unit.given = {("LHAFileHeader", "raw_data_len"): (I(0, 1 << 62), "A-size63")}
+                an = Analysis(hf, unit, generic_contracts(hmod, hf))
+                an.run()
+                an.narrow(3)
+                sy = Sym(an, ctx.facts(hf), ideal=True)
+                calls = [c for c in hf.insts() if c.op == "call" and c.callee is None and any(l.get("fn") == "decode_extended_headers" for l in c.loc)]
+                if len(calls) < 3:
+                    rep.broken(rid, "expected the chain walker to be inlined at 3 sites (levels 1, 2, 3), found %d" % len(calls))
+                for c in calls:
+                    e = Mh.match(("bin", "sub", ("bin", "sub", ("bind", "len"), ("bind", "fs")), 1), c.ops[2], {})
+                    e2 = Mh.match(("gep", ("gep", ("load", ("field", HDR, "raw_data", ANY)), [("bind", "idx")]), [1]), c.ops[1], {})
+                    rl = [f[2] for f in sy.F.at_inst(c) if f[0] in ("ule", "ult") and not is_const(f[2]) and
+                          Mh.match(("bin", "sub", ("load", ("field", HDR, "raw_data_len", ANY)), ANY), f[2], {}) is not None]
+                    if e is None or e2 is None or not rl:
+                        rep.violation(rid, "operands of the decode call recognised", c.where(), "cannot recover offset / ext_len / field_size / raw_data_len", function=de.cname, obj="operands")
+                        continue
+                    rlen = Mh.match(("bin", "sub", ("bind", "rl", ("load", ("field", HDR, "raw_data_len", ANY))), ANY), rl[0], {})["rl"]
+                    # idx = offset + fs is where the type byte lives; the header occupies [idx - fs, idx - fs + ext_len)
+                    Ls = [sy.lin(e2["idx"], c), sy.lin(e["len"], c), sy.lin(rlen, c)]
+                    if any(x is None for x in Ls):
+                        rep.violation(rid, "linear forms", c.where(), "not linear", function=de.cname, obj="linear")
+                        continue
+                    tot = Ls[0].add(Ls[1]).add(Ls[2], -1)
+                    hi = sy.upper_lin(tot, c)
+                    rep.check(rid, hi <= 0, "(offset + field_size) + ext_len - raw_data_len <= 0 at the decode call (%s)" % c.where().split(" <- ")[-2 if " <- " in c.where() else -1][:60], c.where(),
+                              "symbolic upper bound is %s: an accepted extended header may extend into (or past) the bytes needed for the next size field" % hi,
+                              function=de.cname, obj="room-for-next-size")
+                rep.assumptions.append("A-hdr32 (rule R4e2 only): offsets and lengths inside one header are reasoned about as mathematical integers, i.e. a single header's raw data is "
+                                       "shorter than 4 GiB so that the 32-bit `offset` does not wrap")
         rid = rep.rule("R4f", "level-1 extended headers: each must be covered by compressed_length and be at least 3 bytes; read failure rejects", 3)
         r1 = rep.need(rid, mod.fn("read_l1_extended_headers"), "function read_l1_extended_headers")
         if r1:
